@@ -138,6 +138,55 @@ def validate_traces(run, module, consts, invariants, trace_files, label, nproc=8
     return lines
 
 
+def instr_conformance(run, profiles, n, seed, label, claims, max_events=4000):
+    """Instruction-level conformance (VmInstr.tla): every executed instruction of generated programs is validated against the
+    per-instruction model of instruction pointer, stack height and call frames.  `claims(m)` says whether a rejected record
+    contradicts the property of the calling check; other rejections are deviations of the implementation from the model
+    that no listed property forbids: they are printed and recorded, not reported as violations."""
+    d = workdir(label)
+    files = []
+
+    def job(i, prof):
+        def go():
+            f = os.path.join(d, "%s.ndjson" % prof)
+            drive_trace(["instr-drive", "--profile", prof, "--seed", seed * 100 + i, "--n", n, "--max-events", max_events], f, n, timeout=1800)
+            return f
+        return go
+    files = parallel([job(i, p) for i, p in enumerate(profiles)], nproc=4)
+    cfg = os.path.join(d, label + ".cfg")
+    open(cfg, "w").write("CONSTANTS MaxH = 4\nSPECIFICATION TSpec\nINVARIANTS Done\nCHECK_DEADLOCK FALSE\n")
+    results = parallel([(lambda tf=tf, i=i: tlc_trace(os.path.join(SPEC, "VmInstrTrace.tla"), cfg, tf, name="%s-%d" % (label, i), timeout=2400))
+                        for i, tf in enumerate(files)], nproc=8)
+    ops = {}
+    events = 0
+    for f in files:
+        for ln in open(f):
+            if '"e":"I"' in ln:
+                events += 1
+                op = ln.split('"op":"', 1)[1].split('"', 1)[0]
+                ops[op] = ops.get(op, 0) + 1
+    claimed = deviations = 0
+    for tf, r in zip(files, results):
+        run.states += r["distinct"]
+        run.transitions += r["generated"]
+        for m in r["mismatches"]:
+            if claims(m):
+                claimed += 1
+                site = "%s after %s" % (m.get("event", {}).get("op") or m.get("event", {}).get("e"), m.get("after", {}).get("op"))
+                run.violation("instruction-level-trace-rejected", site, dict(trace=os.path.basename(tf), **m), case=dict(trace=tf, line=m.get("line")))
+            else:
+                deviations += 1
+                if deviations <= 5:
+                    print("MODEL-DEVIATION (not a violation of %s) %s: %s" % (run.pid, os.path.basename(tf), json.dumps(m)[:300]))
+    run.traces += len(files)
+    run.notes.setdefault("instruction_level_conformance", []).append(dict(
+        batch=label, profiles=profiles, instruction_events=events, opcodes_executed=ops, rejected_and_claimed=claimed,
+        deviations_from_model_not_claimed=deviations))
+    if len(ops) < 30:
+        run.thin_corpus("instruction-level corpus executes only %d of 47 opcodes" % len(ops))
+    return events
+
+
 def first_records(path, n=6):
     out = []
     with open(path) as f:
